@@ -110,7 +110,7 @@ def gen_case(rng, rates, sep, aliases, targets):
         return '%s + %s' % (xt, yt), 'add', ('money', a, X + Yc, abs(X) + abs(Yc))
     if r < 0.8:
         return '%s - %s' % (xt, yt), 'sub', ('money', a, X - Yc, abs(X) + abs(Yc))
-    n = rng.choice(['2', '3', '0.5', '10', '7', '1.25'])
+    n = rng.choice(['2', '3', '0.5', '10', '7', '1.25', '0.0000000000000001', '0.000000000000000125', '1000000000000000000'])        # also tiny and huge scalars
     nt = render_literal(n, sep)
     if r < 0.87:
         return '%s * %s' % (xt, nt), 'scale*', ('money', a, X * Fraction(n), abs(X * Fraction(n)))
